@@ -128,6 +128,24 @@ func Syntactic(p *Program, name, prop string) []*OblResult {
 		return synTransferViaRecord(p, prop)
 	case "nondeterminism-sources":
 		return synNondeterminism(p, prop)
+	case "loopvar-escape":
+		return synLoopVarEscape(p, prop)
+	case "jp-flag-writers":
+		return synFieldWriters(p, prop, "jp-flag-writers", "vm.EVM", "IsExecuteJP", map[string]bool{"(*vm.EVM).CloseAspectCall": true, "(*vm.EVM).AspectCall": true, "vm.NewEVM": true},
+			"the join-point switch EVM.IsExecuteJP is assigned only by CloseAspectCall, AspectCall and NewEVM: nothing else (Reset, SetBlockContext, the interpreter, a frame function) can switch join points on or off behind the host's back")
+	case "calltree-encapsulated":
+		var out []*OblResult
+		allowed := map[string]bool{"(*vm.CallTree).add": true, "(*vm.CallTree).exit": true, "vm.NewCallTree": true}
+		for _, f := range []string{"root", "current", "count", "lookup"} {
+			out = append(out, synFieldWriters(p, prop, "calltree-encapsulated/CallTree."+f, "vm.CallTree", f, allowed,
+				"CallTree."+f+" is written only by add, exit and NewCallTree (the functions that carry the well-formedness invariant)")...)
+		}
+		for _, f := range []string{"Index", "Parent", "Children"} {
+			out = append(out, synFieldWriters(p, prop, "calltree-encapsulated/Call."+f, "vm.Call", f, allowed,
+				"Call."+f+" is written only by add (inside this module)")...)
+		}
+		out = append(out, synMapWriters(p, prop, "calltree-encapsulated/lookup-map", "map[uint64]*vm.Call", allowed, "the index map of the call tree is updated only by add")...)
+		return out
 	}
 	return []*OblResult{{ID: prop + "/syntactic/" + name, Kind: "syntactic", Status: "error", Reason: "unknown syntactic check " + name, Props: []string{prop}}}
 }
@@ -639,4 +657,141 @@ func mapRangeLeak(p *Program, fn *ssa.Function, rg *ssa.Range) string {
 		}
 	}
 	return ""
+}
+
+// synFieldWriters: every store to field `field` of struct type `typ` (and every composite-literal initialisation is a
+// store too in go/ssa) happens in one of the allowed functions.
+func synFieldWriters(p *Program, prop, id, typ, field string, allowed map[string]bool, text string) []*OblResult {
+	var sites []string
+	n, writes := 0, 0
+	for _, fn := range p.moduleFuncs() {
+		if isTestFunc(p, fn) {
+			continue
+		}
+		n++
+		root := fn
+		for root.Parent() != nil {
+			root = root.Parent()
+		}
+		for _, b := range fn.Blocks {
+			for _, ins := range b.Instrs {
+				st, ok := ins.(*ssa.Store)
+				if !ok {
+					continue
+				}
+				fa, ok := st.Addr.(*ssa.FieldAddr)
+				if !ok {
+					continue
+				}
+				pt, ok := fa.X.Type().Underlying().(*types.Pointer)
+				if !ok || typeStr(pt.Elem()) != typ {
+					continue
+				}
+				stt := pt.Elem().Underlying().(*types.Struct)
+				if stt.Field(fa.Field).Name() != field {
+					continue
+				}
+				writes++
+				if !allowed[fnName(root)] {
+					sites = append(sites, p.pos(st.Pos())+"\t"+fnName(fn)+" assigns "+typ+"."+field)
+				}
+			}
+		}
+	}
+	if writes == 0 {
+		sites = append(sites, "\tno write of "+typ+"."+field+" found at all (field renamed or removed?)")
+	}
+	return summarize(prop, id, fmt.Sprintf("%s (%d writes found)", text, writes), sites, n)
+}
+
+func synMapWriters(p *Program, prop, id, mapType string, allowed map[string]bool, text string) []*OblResult {
+	var sites []string
+	n, writes := 0, 0
+	for _, fn := range p.moduleFuncs() {
+		if isTestFunc(p, fn) {
+			continue
+		}
+		n++
+		root := fn
+		for root.Parent() != nil {
+			root = root.Parent()
+		}
+		for _, b := range fn.Blocks {
+			for _, ins := range b.Instrs {
+				var mt types.Type
+				switch x := ins.(type) {
+				case *ssa.MapUpdate:
+					mt = x.Map.Type()
+				case ssa.CallInstruction:
+					if bi, ok := x.Common().Value.(*ssa.Builtin); ok && (bi.Name() == "delete" || bi.Name() == "clear") && len(x.Common().Args) > 0 {
+						mt = x.Common().Args[0].Type()
+					}
+				}
+				if mt == nil || typeStr(mt.Underlying()) != mapType {
+					continue
+				}
+				writes++
+				if !allowed[fnName(root)] {
+					sites = append(sites, p.pos(ins.Pos())+"\t"+fnName(fn)+" updates a "+mapType)
+				}
+			}
+		}
+	}
+	if writes == 0 {
+		sites = append(sites, "\tno update of a "+mapType+" found at all")
+	}
+	return summarize(prop, id, fmt.Sprintf("%s (%d updates found)", text, writes), sites, n)
+}
+
+// synLoopVarEscape: a variable that lives across the iterations of a loop (its cell is allocated outside the loop
+// body and assigned inside it - e.g. a range variable under the pre-1.22 loop semantics this module's go.mod selects)
+// must not have its address passed to a call or stored in memory inside that loop: whatever is built from that
+// address (the flat tracer's frames hold pointers into their input) would be overwritten by the next iteration.
+func synLoopVarEscape(p *Program, prop string) []*OblResult {
+	var sites []string
+	n := 0
+	for _, fn := range p.moduleFuncs() {
+		if isTestFunc(p, fn) || !strings.Contains(fnName(fn), "tracers/native.") {
+			continue
+		}
+		n++
+		_, _, headers := loopInfo(fn)
+		for _, h := range headers {
+			for _, b := range fn.Blocks {
+				for _, ins := range b.Instrs {
+					al, ok := ins.(*ssa.Alloc)
+					if !ok || h.body[b.Index] {
+						continue // allocated inside the loop body: one cell per iteration
+					}
+					storedInLoop, escapesInLoop := false, token.NoPos
+					for _, r := range *al.Referrers() {
+						rb := r.Block()
+						if rb == nil || !h.body[rb.Index] {
+							continue
+						}
+						switch x := r.(type) {
+						case *ssa.Store:
+							if x.Addr == ssa.Value(al) {
+								storedInLoop = true
+							} else if x.Val == ssa.Value(al) {
+								escapesInLoop = x.Pos()
+							}
+						case ssa.CallInstruction:
+							for _, a := range x.Common().Args {
+								if a == ssa.Value(al) {
+									escapesInLoop = x.Pos()
+								}
+							}
+						case *ssa.MakeInterface, *ssa.MakeClosure:
+							escapesInLoop = r.Pos()
+						}
+					}
+					if storedInLoop && escapesInLoop != token.NoPos {
+						sites = append(sites, p.pos(escapesInLoop)+"\tthe address of "+al.Comment+" (a variable reassigned by every iteration of the loop) is handed out inside the loop in "+fnName(fn)+": frames built from it alias one another")
+					}
+				}
+			}
+		}
+	}
+	return summarize(prop, "loopvar-escape", "no function of tracers/native hands out, inside a loop, the address of a variable that the loop reassigns (every emitted frame points into its own copy of the input)", sites, n)
 }
